@@ -44,4 +44,11 @@ def mainCallsRunPackedFirst : Bool := true
     `O_TRUNC`)? Found: `os.Create(*p.TargetBinary)` -/
 def targetOpenTruncates : Bool := true
 
+/-- is the file to scan determined with `os.Executable()`? Found: `osExecutable() (osExecutable = os.Executable)` -/
+def locateUsesOsExecutable : Bool := true
+
+/-- is `packmarker` the result of a function call at run time (not a constant expression, which the
+    compiler would fold into one literal inside the interpreter binary)? -/
+def markerBuiltByCall : Bool := true
+
 end Ecal.Gen.C20
